@@ -10,6 +10,8 @@
 (*   Recv  plan, store0, store1       the receiver was fed                  *)
 (*   Trans chg, disk0, store0, err, results, problems, missing, disk1,      *)
 (*         store1                                                           *)
+(*   Subset filtered, original, out   one call of the controller's check of *)
+(*         Stage's answer (safety.go filteredPathsAreSubset)                *)
 (* disk* / store* come from the independent walker. The module drives the   *)
 (* call-protocol state of Staging.tla (flags, last scan count, cache) with  *)
 (* the observed calls - the spec's own update functions, not the code's     *)
@@ -57,7 +59,7 @@ TransChecks(i, m, r) ==
          (r.err = "" /\ ~OverTrans(m, r.chg)) => C10_MissingReported(~m.dirty, m.init, r.disk0, s0, r.chg, r.missing))
   \o Chk(Want, i, "C10_StoreContentAddressed", C10_StoreContentAddressed(s0))
 
-Known == {"New", "Ext", "Scan", "Stage", "Recv", "Trans"}
+Known == {"New", "Ext", "Scan", "Stage", "Recv", "Trans", "Subset"}
 Checks(i, m, r) ==
   IF r.ev \notin Known THEN <<Fail(i, "TraceAccepted")>>
   ELSE IF Has(r, "hang") /\ r.hang THEN <<Fail(i, "TraceAccepted")>>
@@ -65,6 +67,7 @@ Checks(i, m, r) ==
          [] r.ev = "Stage" -> StageChecks(i, m, r)
          [] r.ev = "Recv" -> RecvChecks(i, m, r)
          [] r.ev = "Trans" -> TransChecks(i, m, r)
+         [] r.ev = "Subset" -> Chk(Want, i, "C41_ControllerSubsetCheck", C41_ControllerSubsetCheck(r.filtered, r.original, r.out))
          [] OTHER -> <<>>
 
 \* the spec's own protocol update for the observed call
